@@ -307,7 +307,9 @@ def export_slice(slize: Slice) -> vckt.Slice:
 def export_concat(concat: Concat) -> vckt.Concat:
     """Export (potentially recursive) Signal Concatenations"""
     pconc = vckt.Concat()
-    for part in concat.parts:
+    # Hdl21 `Concat`s list their least-significant parts first.
+    # VLSIR (as read by its netlisters, which write each bus MSB-first) lists the most-significant part first.
+    for part in reversed(concat.parts):
         pconc.parts.append(export_connection_target(part))
     return pconc
 
